@@ -75,6 +75,11 @@ class EndpointRequestGenerator:
         else:
             args_list.append("headers=None")
 
+        # Determine 'cookies' argument
+        # UrlArgsGenerator created a 'cookies' dict if the operation declares cookie parameters.
+        if any(p.param_in == "cookie" for p in op.parameters):
+            args_list.append("cookies=cookies")  # Assumes cookies dict is defined
+
         positional_args_str = f'"{op.method.upper()}", url'  # url variable is assumed to be defined
         keyword_args_str = ", ".join(args_list)
 
